@@ -1,0 +1,23 @@
+//go:build verif
+
+package version
+
+// This file only exists under the build tag "verif" (add-only seam for the external verification
+// harness, check C02). Nothing here changes behaviour while it is unused.
+
+// VerifReleaseInTwoSteps performs Version.Release in the two steps it consists of: the reference count is
+// decremented now, the returned function does what Release does next with the value it saw (if that value
+// is 0: FamilyVersion.removeVersion). It lets a test place other operations of the family (a reader taking
+// a snapshot, a commit) between the two steps, which run without a common lock in Release.
+func VerifReleaseInTwoSteps(v Version) (second func()) {
+	vv, ok := v.(*version)
+	if !ok {
+		return func() {}
+	}
+	newVal := vv.ref.Dec()
+	return func() {
+		if newVal == 0 {
+			vv.fv.removeVersion(vv)
+		}
+	}
+}
